@@ -64,7 +64,7 @@ def required(tier):
     b.update({'pols:1': 50, 'pols:2': 50, 'request==maxdelay+1:later': 20, 'request==maxdelay+1:first': 20,
               'delays:first-antenna-not-max': 20, 'delays:not-palindromic': 20, 'maxdelay>=100': 10,
               'delays:caller-container-changed-after-construction:ndarray': 30,
-              'delays:caller-container-changed-after-construction:list': 30})
+              'delays:caller-container-changed-after-construction:list': 30, 'request>2^15-samples': 20})
     return {'buckets': b,
             'counters': {'requests_checked': 1500, 'later_requests_with_carry': 300, 'observations_after_clock_op': 200,
                          'cache_state_checks': 200, 'samples_compared': 200000, 'y_later_requests_with_carry': 100},
@@ -185,6 +185,12 @@ def gen_cases(seed, tier):
                 else:
                     ops.append(_clock_op(rng, clock, t0))
             gets = [['get', m] for m in _partition(rng, part, D, big)]
+            if D >= 1 and common.stratum(i, 157, 24) == 0 and o == 0:
+                # one long request just above a power of two (2^16 + r, 1 <= r <= maxdelay: a library that generates long requests
+                # piecewise ends on a piece shorter than a delay), followed by ordinary ones
+                long_n = 2 ** int(common.pick(rng, [16, 16, 15, 17])) + int(rng.integers(1, D + 1))
+                gets = [['get', int(D + 1 + rng.integers(0, 50))], ['get', long_n], ['get', int(D + 1 + rng.integers(0, 300))],
+                        ['get', int(D + 1 + rng.integers(0, 300))]]
             if bgk == 'coded' and len(gets) >= 2 and common.stratum(i, 156, 3) == 0:
                 # between two requests of one observation the shared background re-estimates its noise level (the stream draws a
                 # throw-away block and restores its clock): what the antennas carry over must not be affected
@@ -353,6 +359,8 @@ def run_case(c, R):
                     R.count('y_later_requests_with_carry')
             if n == D + 1:
                 R.bucket('request==maxdelay+1:' + ('first' if r == 0 else 'later'))
+            if n > 2 ** 15:
+                R.bucket('request>2^15-samples')
             for i in range(na):
                 ok = []
                 det = {}
